@@ -44,7 +44,7 @@ def gen_cases(tier, seed):
         cases.append(c)
     # deterministic: each partition kind alone, both schemes
     k = 0
-    for pk in D.ALL_PKINDS:
+    for pk in D.ALL_PKINDS + ["pdt_far"]:
         for scheme in ("hive", "drill"):
             for card in (1, 3):
                 k += 1
@@ -91,14 +91,14 @@ def key_text(kind, v):
         return repr(float(v))
     if kind == "pbool":
         return "True" if bool(v) else "False"
-    if kind in ("pdt", "pdate"):
+    if kind in ("pdt", "pdate", "pdt_far"):
         return pd.Timestamp(v).isoformat()
     return str(v)
 
 
 def key_text_drill(kind, v):
     import pandas as pd
-    if kind in ("pdt", "pdate"):
+    if kind in ("pdt", "pdate", "pdt_far"):
         return str(pd.Timestamp(v))
     return key_text(kind, v)
 
@@ -112,7 +112,7 @@ def kind_ok(kind, exp, got):
         return isinstance(got, (float, np.floating)) and float(got) == float(exp)
     if kind == "pbool":
         return isinstance(got, (bool, np.bool_)) and bool(got) == bool(exp)
-    if kind in ("pdt", "pdate"):
+    if kind in ("pdt", "pdate", "pdt_far"):
         try:
             return isinstance(got, (pd.Timestamp, np.datetime64)) and pd.Timestamp(got) == pd.Timestamp(exp)
         except Exception:
